@@ -245,14 +245,13 @@ def shrink(case, key, budget=25.0):
 # ---------------------------------------------------------------------- the check
 def run(ctx):
     quick = ctx.tier == "quick"
-    n = 600 if quick else 20000
+    n = 500 if quick else 20000
     ctx.rule = ("oriented manifold polygon surfaces (<= 60/90 faces) from seeds (polygons, grids, annuli, tori, solids, "
                 "unions, hinges with prescribed normal pairs around both thresholds, folded roofs, flat lattices) under "
                 "face deletion / ears / chords / splits / isolated vertices, random renumbering; every border vertex, "
                 "interior, isolated and out-of-range vertices as starting points; hard edges none/some/all; normals "
                 "computed or declared (exact quarter-integers); 3 detector option sets per mesh, the third on a mesh already used by a run. Non-trivial = at least "
-                "one border loop with an interior vertex or chord present, or an interior edge within 0.1 of a "
-                "threshold; distinct = by canonical JSON of the case")
+                "one border loop and at least two faces; distinct = by canonical JSON of the case")
     ctx.assumptions += [
         "the connectivity answers consumed by border.py/features.py are input tables; well-formedness (sorted "
         "neighbourhoods) is proved by C01 and evaluated here per case by Coq (wf_b, wf_f)",
@@ -316,6 +315,18 @@ def run(ctx):
         bad_f = None if bad_f is None else [fidx[i] for i in bad_f]
     else:
         ctx.obligation("correspondence batches", "correspondence", False, "model does not compile")
+
+    # for the record only (outside the quantifier): the witness of C15_cycle_unsorted_refuted on the implementation
+    try:
+        w = {"nv": 9, "faces": [[7, 8, 5], [6, 8, 7, 1, 2, 3, 4, 0]], "coords": [[i, i * i, 0] for i in range(9)],
+             "hard": None, "normals": None, "exact": False, "starts": [0], "dets": [], "sort": False}
+        ob = run_driver([w], timeout=120)[0]
+        got = ob["cycles"][1][1]
+        same = got[0] == "ok" and got[1] == [0, 4, 3, 2, 1, 7, 8, 5, 7, 8]
+        ctx.notes.append("config.sort_neighborhoods=False (outside C15's quantifier): the implementation %s the walk of the "
+                         "Coq witness C15_cycle_unsorted_refuted (observed %s)" % ("reproduces" if same else "does NOT reproduce", got[1:2]))
+    except Exception as ex:  # never a verdict
+        ctx.notes.append("unsorted witness could not be replayed: %r" % ex)
 
     # 3. verdicts
     reported = set()
